@@ -678,11 +678,9 @@ fn lit_program(body: &str, ctx: usize) -> String {
 
 /// One line of comment text: words, punctuation, URLs, runs of blanks; never white space at either end, no
 /// Markdown marker at the start, no comment delimiter inside.
-fn random_comment_text(rng: &mut Rng, markers: bool) -> String {
+fn random_comment_text(rng: &mut Rng, markers: bool) -> (String, &'static str) {
     let mut s = String::new();
-    if markers {
-        s.push_str(*rng.pick(&["* ", "- ", "+ ", "> ", "1. ", "12) ", "> > "]));
-    }
+    let marker: &'static str = if markers { *rng.pick(&["* ", "- ", "+ ", "> ", "1. ", "12) ", "> > "]) } else { "" };
     let n = rng.range(2, 18);
     for i in 0..n {
         match rng.below(12) {
@@ -708,8 +706,8 @@ fn random_comment_text(rng: &mut Rng, markers: bool) -> String {
     }
     let t = s.trim().replace("*/", "* /").replace("/*", "/ *");
     let t = t.trim_start_matches(|c: char| "/!*-+>#|`[".contains(c) || c.is_ascii_digit() || c.is_whitespace()).to_string();
-    let t = if markers { format!("{}{}", s.split(' ').next().unwrap_or("*"), format!(" {}", t)) } else { t };
-    if t.trim().is_empty() { "word".to_string() } else { t.trim_end().to_string() }
+    let t = if t.trim().is_empty() { "word".to_string() } else { t.trim_end().to_string() };
+    (format!("{}{}", marker, t), marker)
 }
 
 /// (program, line_start of the wrapped comment)
@@ -761,7 +759,9 @@ struct LitCase {
 
 struct CmtCase {
     text: String,
-    ls: &'static str,
+    /// line start of the continuation lines: the style's, plus the block-quote markers of an item
+    ls: String,
+    itemized: bool,
     src: String,
     cfg: Vec<(String, String)>,
     desc: &'static str,
@@ -861,9 +861,10 @@ fn e2e(o: &mut Outcome, rng: &mut Rng, thorough: bool, parts: Parts, fixture_lit
         let mut cases: Vec<CmtCase> = vec![];
         for i in 0..(if thorough { 9000 } else { 900 }) {
             let markers = i % 10 == 9;
-            let text = random_comment_text(rng, markers);
+            let (text, marker) = random_comment_text(rng, markers);
             let kind = rng.below(4);
             let (src, ls) = cmt_program(&text, kind, rng.below(5));
+            let ls = if marker.starts_with('>') { format!("{}{}", ls, marker) } else { ls.to_string() };
             let mut cfg = vec![kv("wrap_comments", "true"), kv("max_width", rng.range(20, 100))];
             // normalize_comments turns block comments into line comments: only for the line styles here
             if kind != 3 && rng.chance(1, 2) {
@@ -872,13 +873,13 @@ fn e2e(o: &mut Outcome, rng: &mut Rng, thorough: bool, parts: Parts, fixture_lit
             if rng.chance(1, 4) {
                 cfg.push(kv("comment_width", rng.range(20, 100)));
             }
-            cases.push(CmtCase { text, ls, src, cfg, desc: if markers { "e2e-comment-itemized" } else { "e2e-comment-random" } });
+            cases.push(CmtCase { text, ls, itemized: markers, src, cfg, desc: if markers { "e2e-comment-itemized" } else { "e2e-comment-random" } });
         }
         for (i, text) in E2E_COMMENTS.iter().enumerate() {
             for width in (20..=100).filter(|w| thorough || (w + i) % 4 == 0) {
                 for kind in 0..4 {
                     let (src, ls) = cmt_program(text, kind, i + width);
-                    cases.push(CmtCase { text: text.to_string(), ls, src, cfg: vec![kv("wrap_comments", "true"), kv("max_width", width)], desc: "e2e-comment-all-widths" });
+                    cases.push(CmtCase { text: text.to_string(), ls: ls.to_string(), itemized: false, src, cfg: vec![kv("wrap_comments", "true"), kv("max_width", width)], desc: "e2e-comment-all-widths" });
                 }
             }
         }
@@ -906,8 +907,8 @@ fn e2e(o: &mut Outcome, rng: &mut Rng, thorough: bool, parts: Parts, fixture_lit
             let changed = after.contains('\n');
             o.count(if changed { "e2e:cmt:wrapped" } else { "e2e:cmt:one-line" });
             if parts.cmt {
-                o.push("oracle", "cmt.payloadeq", format!("cmt.payloadeq {} {} {}", enc_str(c.ls), enc_str(&before), enc_str(&after)), "ok".into(), c.desc.into(), changed);
-                o.push("oracle", "cmt.refines", format!("cmt.refines {} {} {}", enc_str(c.ls), enc_str(&before), enc_str(&after)), "ok".into(), c.desc.into(), changed);
+                o.push("oracle", "cmt.payloadeq", format!("cmt.payloadeq {} {} {}", enc_str(&c.ls), enc_str(&before), enc_str(&after)), "ok".into(), c.desc.into(), changed);
+                o.push("oracle", "cmt.refines", format!("cmt.refines {} {} {}", enc_str(&c.ls), enc_str(&before), enc_str(&after)), "ok".into(), c.desc.into(), changed);
             }
             if parts.idem && changed {
                 second.push((i, Job { src: r.out.clone(), cfg: c.cfg.clone(), file_lines: None }));
@@ -924,7 +925,10 @@ fn e2e(o: &mut Outcome, rng: &mut Rng, thorough: bool, parts: Parts, fixture_lit
                 }
                 o.direct_evals += 1;
                 o.direct_distinct += 1;
-                if r2.out != j.src {
+                if cases[*i].itemized {
+                    // itemized blocks and block quotes re-flow on a second pass (known finding STR-IDEM-ITEM, probed)
+                    o.count(if r2.out == j.src { "e2e:cmt:idem:itemized:same" } else { "e2e:cmt:idem:itemized:differs" });
+                } else if r2.out != j.src {
                     o.direct_failures.push(json!({"sig": "strings:e2e-comment-not-idempotent", "src": cases[*i].src, "cfg": format!("{:?}", cases[*i].cfg), "first": j.src, "second": r2.out}));
                 } else {
                     o.count("e2e:cmt:idem:same");
@@ -934,6 +938,9 @@ fn e2e(o: &mut Outcome, rng: &mut Rng, thorough: bool, parts: Parts, fixture_lit
     }
     if parts.cmt {
         probes(o);
+    }
+    if parts.idem {
+        probes_idem(o);
     }
 }
 
@@ -999,6 +1006,28 @@ fn probes(o: &mut Outcome) {
         let out_lits = literals_and_comments(&r.out).0;
         let bad = r.status != Status::Ok || out_lits.len() != 1 || rustc_value(body) != rustc_value(&out_lits[0]);
         o.probes.push(json!({"id": id, "fails": bad, "what": "format_strings changed the value of a string literal (a defect of string.rs repaired by a fix: commit came back)", "detail": {"src": src, "out": r.out}}));
+    }
+}
+
+/// C02 probes: shapes on which a second pass changes the first one's output.
+fn probes_idem(o: &mut Outcome) {
+    let fmt = |src: &str, cfg: Vec<(String, String)>| pool::format_here(&Job { src: src.to_string(), cfg, file_lines: None });
+    // STR-IDEM-ITEM: a block-quote item with a URL further down: `detect_url` looks at the whole rest of the item
+    {
+        let src = "mod m {\n    /// > . ftp://b==a_/=. (0at)_Zc(bet       axac e .    file://bb @ ,     )beZ\n    fn f() {}\n}\n";
+        let cfg = vec![kv("wrap_comments", "true"), kv("max_width", 38)];
+        let r1 = fmt(src, cfg.clone());
+        let r2 = fmt(&r1.out, cfg);
+        o.probes.push(json!({"id": "STR-IDEM-ITEM", "fails": r1.status == Status::Ok && r2.status == Status::Ok && r1.out != r2.out, "what": "wrap_comments is not idempotent on an itemized block (here a block quote) with a URL further down: `detect_url` answers for the whole rest of the item, so the first pass keeps `. ftp://b==a_/=. (0at)_Zc(bet` on one over-long line and the second pass, which sees shorter items, breaks it", "detail": {"src": src, "first": r1.out, "second": r2.out}}));
+    }
+    // STR-IDEM-CONT-ESC: a continuation directly followed by an escaped backslash and another continuation
+    {
+        let body = "aaaaaaaaaaaaaaaaaaaaaaaaa bbbbbbbbbbbbbb\\\n    \\\\\\\n    cccccccccccccccccccccc dddddddddddddd eeeeeeeeeeeee";
+        let src = lit_program(body, 2);
+        let cfg = vec![kv("format_strings", "true"), kv("max_width", 60)];
+        let r1 = fmt(&src, cfg.clone());
+        let r2 = fmt(&r1.out, cfg);
+        o.probes.push(json!({"id": "STR-IDEM-CONT-ESC", "fails": r1.status == Status::Ok && r2.status == Status::Ok && r1.out != r2.out, "what": "format_strings is not idempotent on a literal in which a line continuation is directly followed by an escaped backslash and another line continuation: the pattern that strips continuations consumes the character in front of a match, so the second continuation is only found on the next pass", "detail": {"src": src, "first": r1.out, "second": r2.out}}));
     }
 }
 
